@@ -33,14 +33,23 @@ def make_case(g, tag):
         filters.append([bool(a == -1 and r.random() < p) or bool(
             a in keep_labels and r.random() < p) for a in ans])
     weights = None if r.random() < 0.4 else [r.randrange(0, 25) / 8.0 for _ in range(N)]
+    import zlib
+
+    h = zlib.crc32(repr((labels, ans[:8], N)).encode()) >> 2
     return {"mode": "filtercols", "labels": labels, "ans": ans, "filters": filters,
+            # where the missing element sits in the summary and in each filter cube
+            "miss_pos": [[1.0, 0.0, 0.5, 1.0][(h >> (2 * k)) % 4] for k in range(nf + 1)],
             "weights": weights, "min_base": r.choice([0, 3, 6, 12, 30]), "population": 1000,
             "tag": tag}
 
 
-def _dim(labels_present):
-    els = [{"id": k, "missing": False, "value": lab} for k, lab in enumerate(labels_present)]
-    els.append({"id": -1, "missing": True, "value": {"?": -1}})
+def _dim(labels_present, miss_at):
+    """Element ids are positions in the payload; the missing element sits at `miss_at`
+    (text enumerations usually end with it, nothing says they must)."""
+    els = [{"missing": False, "value": lab} for lab in labels_present]
+    els.insert(miss_at, {"missing": True, "value": {"?": -1}})
+    for k, e in enumerate(els):
+        e["id"] = k
     return {"derived": False,
             "references": {"alias": "txt", "name": "Open end", "description": "verbatim"},
             "type": {"class": "enum", "elements": els,
@@ -48,7 +57,7 @@ def _dim(labels_present):
                                  "missing_rules": {}}}}
 
 
-def _response(labels, ans, keep, single_col, drop_absent, weights=None):
+def _response(labels, ans, keep, single_col, drop_absent, weights=None, miss_pos=1.0):
     """(response, unweighted counts per label, weighted counts per label)."""
     n = len(labels)
     cnt = [0] * n
@@ -65,9 +74,15 @@ def _response(labels, ans, keep, single_col, drop_absent, weights=None):
             cnt[a] += 1
             wcnt[a] += w
     present = [k for k in range(n) if cnt[k] > 0 or not drop_absent]
-    counts = [cnt[k] for k in present] + [miss]
-    wcounts = counts if weights is None else [wcnt[k] for k in present] + [wmiss]
-    res = {"counts": counts, "dimensions": [_dim([labels[k] for k in present])],
+    miss_at = int(round(miss_pos * len(present)))
+    counts = [cnt[k] for k in present]
+    counts.insert(miss_at, miss)
+    if weights is None:
+        wcounts = counts
+    else:
+        wcounts = [wcnt[k] for k in present]
+        wcounts.insert(miss_at, wmiss)
+    res = {"counts": counts, "dimensions": [_dim([labels[k] for k in present], miss_at)],
            "measures": {"count": {"data": list(wcounts), "n_missing": miss,
                                   "metadata": {"type": {"class": "numeric", "integer": True,
                                                         "missing_reasons": {"No Data": -1},
@@ -90,13 +105,14 @@ def check(case, pid):
     N = len(ans)
     responses, expected, wexpected = [], [], []
     wts = case.get("weights")
-    r0, c0, w0 = _response(labels, ans, [True] * N, False, False, wts)
+    mp = case.get("miss_pos") or [1.0] * (1 + len(case["filters"]))
+    r0, c0, w0 = _response(labels, ans, [True] * N, False, False, wts, mp[0])
     responses.append(r0)
     expected.append(c0)
     wexpected.append(w0)
     dropped = False
-    for keep in case["filters"]:
-        rj, cj, wj = _response(labels, ans, keep, True, True, wts)
+    for j_, keep in enumerate(case["filters"]):
+        rj, cj, wj = _response(labels, ans, keep, True, True, wts, mp[j_ + 1])
         responses.append(rj)
         expected.append(cj)
         wexpected.append(wj)
@@ -108,6 +124,8 @@ def check(case, pid):
                       "labels_dropped_by_the_back_end": dropped}
     if dropped:
         res.classes.append("augmented")
+        if mp[0] < 1.0:
+            res.classes.append("augmented_missing_not_last")
     cs = CubeSet(json.loads(json.dumps(responses)), [{} for _ in responses], case["population"],
                  case["min_base"])
     ps = read(cs, "partition_sets")
@@ -122,7 +140,7 @@ def check(case, pid):
         wexp = np.array(wexpected[j], dtype=float)
         base = float(exp.sum())
         wbase = float(wexp.sum())
-        if pid == "C06":
+        if pid in ("C06", "C01"):
             lab = read(part, "row_labels")
             res.check("filtercols", lab.ok and [str(x) for x in lab.value] == labels,
                       "filtercols/row_labels", {"cube": j, "got": repr(lab)[:200]})
